@@ -20,3 +20,10 @@ package bgp
 //@ func (Session).Set
 //@   trusted
 //@   modifies nothing
+// closing / creating sessions has no effect on the state modelled here (assumed)
+//@ func (Session).Close
+//@   trusted
+//@   modifies nothing
+//@ func (SessionManager).NewSession
+//@   trusted
+//@   modifies nothing
